@@ -100,6 +100,9 @@ def install(lib, np_):
       n = fresh_count(cx, 'len', 0, 10 ** 9)
       w = cx.p.heap.get('__opaque_width__', {}).get(obj.what)
       return cx.new(None, [n] + ([z3.IntVal(w)] if w else []), k or 'i')
+    if isinstance(obj, VRef) and obj.types and 'list' in obj.types:
+      n = fresh_count(cx, 'len', 0, 10 ** 9)      # a python list of numbers
+      return cx.new(TH.of_list(obj.t), [n], k or 'f')
     if isinstance(obj, VRef):
       nd = fresh('arr.ndim', z3.IntSort())
       dims = z3.Function(fresh_name('arr.dim'), z3.IntSort(), z3.IntSort())
